@@ -231,3 +231,51 @@ fn c14_pair_text_either_order() {
         _ => { assert!(false); }
     }
 }
+
+// ---------------- C09 (strings; BOUNDED: every byte string up to N bytes that is valid UTF-8) ----------------
+// The guards `len() == 2` / `len() != 4` send every longer input down a content-independent error path.
+
+#[kani::proof]
+#[kani::unwind(7)]
+fn c09_rank_suit_from_str_4() {
+    let bytes: [u8; 4] = kani::any();
+    let len: usize = kani::any();
+    kani::assume(len <= 4);
+    if let Ok(s) = std::str::from_utf8(&bytes[..len]) {
+        kani::cover!(len == 4);
+        let r = Rank::from_str(s);
+        let t = Suit::from_str(s);
+        // first character decides; anything else is an error, never a panic
+        if len == 0 { assert!(r.is_err() && t.is_err()); }
+    }
+}
+
+#[kani::proof]
+#[kani::unwind(7)]
+fn c09_card_from_str_4() {
+    let bytes: [u8; 4] = kani::any();
+    let len: usize = kani::any();
+    kani::assume(len <= 4);
+    if let Ok(s) = std::str::from_utf8(&bytes[..len]) {
+        kani::cover!(len == 2);
+        match Card::from_str(s) {
+            Ok(c) => assert!(len == 2 && bytes[0] as char == char::from(c.rank()) && bytes[1] as char == char::from(c.suit())),
+            Err(_) => {}
+        }
+    }
+}
+
+#[kani::proof]
+#[kani::unwind(9)]
+fn c09_cardpair_from_str_6() {
+    let bytes: [u8; 6] = kani::any();
+    let len: usize = kani::any();
+    kani::assume(len <= 6);
+    if let Ok(s) = std::str::from_utf8(&bytes[..len]) {
+        kani::cover!(len == 4);
+        match CardPair::from_str(s) {
+            Ok(p) => assert!(len == 4 && p[0] <= p[1]),
+            Err(_) => {}
+        }
+    }
+}
